@@ -269,11 +269,10 @@ pub fn record_c01(runs: usize, path: &str) {
         let dag = if attempts % 4 == 1 {
             let k = attempts / 4;
             if k % 2 == 0 {
-                let cands = equal_width_sums();
-                let t = &cands[(k / 2) % cands.len()];
-                let vals = all_vals(t);
-                fixed_w1 = Some(vals[(k / 2 / cands.len()) % vals.len()].clone());
-                typed_witness_pair(t, &Ty::word(3))
+                let cases = equal_width_cases();
+                let (t, v) = &cases[(k / 2) % cases.len()];
+                fixed_w1 = Some(v.clone());
+                typed_witness_pair(t, &Ty::word(1))
             } else { typed_witness_pair(&rand_small_ty(&mut rng, 3), &Ty::word(rng.below(4))) }
         } else { dag };
         let n = dag.as_array().unwrap().len();
@@ -314,7 +313,7 @@ pub fn record_c01(runs: usize, path: &str) {
                     match pruned { Ok(p) => redeem = p, Err(_) => return J::Null }
                 }
                 let (sdag, sty, swit) = describe_prog(&redeem);
-                if sdag.as_array().unwrap().len() > 80 { return J::Null; }
+                if sdag.as_array().unwrap().len() > 130 { return J::Null; }
                 let rt = if fam == Family::Core { round_trip::<Core>(&redeem) } else { round_trip::<Elements>(&redeem) };
                 let cdec = commit_rt;
                 json!({"ev": "c01", "family": if fam == Family::Core { "core" } else { "elements" }, "pruned": prune_it,
